@@ -29,6 +29,7 @@ from icalendar.cal import (Calendar, Event, Todo, Journal, FreeBusy, Timezone, T
 from icalendar.timezone import tzp
 
 UTC = timezone.utc
+PLAIN_CLASSES = {k.upper(): v for k, v in component_factory.items()}  # the library's own classes, whatever is registered later
 ZA, ZB = "Europe/Berlin", "America/New_York"
 PARAMS = ({}, {"X-P": "plain"}, {"ALTREP": "http://x/y;z"}, {"MEMBER": ["mailto:a@x", "mailto:b@x"]}, {"x-Mixed": "v"},
           # "arbitrary parameters": an empty value, RFC 6868 look-alikes (written raw, must come back raw), a non-BMP character
@@ -237,7 +238,7 @@ def container(cname):
         al = Alarm()
         ev.add_component(al)
         return ev, al
-    cls = component_factory.get(cname)
+    cls = PLAIN_CLASSES.get(cname)
     if cls is None:
         c = Component()
         c.name = cname
@@ -490,7 +491,7 @@ def run_calls(case):
             cur[-1][call[1]] = types_factory.for_property(call[1])(call[2])
             mcur[-1][1][call[1].upper()] = [call[2]]
         elif call[0] == "sub":
-            cls = component_factory.get(call[1])
+            cls = PLAIN_CLASSES.get(call[1].upper())
             c = cls() if cls else Component()
             if not cls:
                 c.name = call[1]
@@ -589,8 +590,56 @@ def run_custom(case):
             "outcome": "custom-ok" if not fails else "FAIL", "fails": fails}
 
 
+def run_registered(case):
+    """('reg', provider, route, spelling, container): an application registers value types for its own X- properties - through the
+    module's factory instance or through the class attribute the package exports - and then uses them like any other."""
+    _, provider, route, spelling, cname = case
+    env.use_provider(provider)
+    from icalendar.prop import TypesFactory, vInt
+    import icalendar.cal as _cal
+    table = _cal.types_factory.types_map if route == "instance" else TypesFactory.types_map
+    keys = {"upper": ("X-REG-WHEN", "X-REG-COUNT", "X-REG-WAIT"), "lower": ("x-reg-when", "x-reg-count", "x-reg-wait"),
+            "mixed": ("X-Reg-When", "x-REG-count", "X-reg-Wait")}[spelling]
+    fails = []
+    when, count, wait = datetime(2024, 3, 9, 12, 30, tzinfo=UTC), 5, timedelta(hours=-1, minutes=-30)
+    try:
+        table[keys[0]], table[keys[1]], table[keys[2]] = "date-time", "integer", "duration"
+        root, holder = container(cname)
+        holder.add("x-reg-when", when)
+        holder.add("X-REG-COUNT", count)
+        holder.add("X-Reg-Wait", wait)
+        data = root.to_ical()
+        lines = {ln.split(":", 1)[0]: ln for ln in data.decode().replace("\r\n ", "").split("\r\n") if ln.startswith("X-REG")}
+        want_lines = {"X-REG-WHEN": "X-REG-WHEN:20240309T123000Z", "X-REG-COUNT": "X-REG-COUNT:5", "X-REG-WAIT": "X-REG-WAIT:-PT1H30M"}
+        if lines != want_lines:
+            fails.append(fail("registered-type:emitted-lines", case, want_lines, lines))
+        back = type(root).from_ical(data) if type(root) is not Component else Component.from_ical(data)
+        h2 = find(back, holder.name)
+        got = {k: (type(h2[k]).__name__, getattr(h2[k], "dt", None) if k != "X-REG-COUNT" else int(h2[k])) for k in ("X-REG-WHEN", "X-REG-COUNT", "X-REG-WAIT") if k in h2}
+        want = {"X-REG-WHEN": ("vDDDTypes", when), "X-REG-COUNT": ("vInt", 5), "X-REG-WAIT": ("vDDDTypes", wait)}
+        if got != want:
+            fails.append(fail("registered-type:decoded-values", case, repr(want), repr(got)))
+        # the same text with the names in another case: same types
+        for how in (bytes.lower, bytes.title):
+            import re as _re
+            re_data = _re.sub(rb"(?m)^X-REG-[A-Z]+", lambda m: how(m.group(0)), data)
+            b2 = type(root).from_ical(re_data) if type(root) is not Component else Component.from_ical(re_data)
+            h3 = find(b2, holder.name)
+            got3 = {k: type(h3[k]).__name__ for k in want if k in h3}
+            if got3 != {k: v[0] for k, v in want.items()}:
+                fails.append(fail("registered-type:depends-on-name-case", case + (how.__name__,), {k: v[0] for k, v in want.items()}, got3))
+                break
+    except Exception as e:  # noqa: BLE001
+        fails.append(fail("registered-type:raises", case, "a round trip", f"{type(e).__name__}: {e}"))
+    finally:
+        for k in keys:
+            table.pop(k, None)
+            _cal.types_factory.types_map.pop(k, None)
+    return {"state": ("reg",) + tuple(case[1:]) + (not fails,), "trans": 6, "nontrivial": True, "outcome": "registered-ok" if not fails else "FAIL", "fails": fails}
+
+
 def run_case(case):
-    return {"prop": run_prop, "multi": run_multi, "calls": run_calls, "custom": run_custom}[case[0]](case)
+    return {"prop": run_prop, "multi": run_multi, "calls": run_calls, "custom": run_custom, "reg": run_registered}[case[0]](case)
 
 
 replay = run_case
@@ -607,6 +656,13 @@ def run(ctx):
     ctx.assumptions += ["component.decoded() is not used as an observer (the library marks it unfinished); typed accessors are",
                         "X- properties are given text values only; ATTACH as BINARY is not generated (alternates: DATE, PERIOD, DATE-TIME)",
                         "COMPLETED is supplied in UTC only"]
+
+    def gen_reg():
+        for provider in env.PROVIDERS:
+            for route in ("instance", "class"):
+                for spelling in ("upper", "lower", "mixed"):
+                    for cname in ("VEVENT", "VTODO", "X-COMP", "VALARM"):
+                        yield ("reg", provider, route, spelling, cname)
 
     def gen():
         for provider in env.PROVIDERS:
@@ -640,3 +696,4 @@ def run(ctx):
                             yield ("custom", provider, how, dst, pname, rounds)
 
     ctx.explore("properties + order + call sequences", gen, run_case)
+    ctx.explore("value types registered by the application", gen_reg, run_case)
